@@ -287,6 +287,7 @@ impl Poll {
 
         let now = Instant::now();
         let mut timers = self.timers.borrow_mut();
+        timers.clear_expired();
         while let Some((_, token)) = timers.next_expired(now) {
             poll_events.push(PollEvent {
                 readiness: Readiness {
